@@ -389,6 +389,10 @@ def run(ctx):
     check_set_order(ctx, "R7", list(prog.package_funcs()), "package functions")
     ctx.rule("R8", "the converter's argument table is the documented one and the parsed values are used as parsed", "input and output swapped, an option string re-used for another destination, a default set behind the table's back, or the loaded object edited before it is written")
     check_cli_arguments(ctx, "R8")
+    # "a pre-flight rejection leaves an existing output file untouched": what a writer cannot store is refused by its
+    # prepare_dump (before the API opens the file), not by its dump_one (after the file was truncated) -- the guard
+    # matrix C08 decides, evaluated per format and object class
+    ctx.borrow("c08", {"R5": "R9"})
 
 
 
